@@ -52,13 +52,13 @@ Definition leaf_malformed (raw_ok : list N -> bool) (l : leaf) : bool :=
 
 (* s      the definition text given to the implementation (plain JSON or armored)
    jp     JSON text -> tree for the texts involved (serde_json's part, supplied by the driver)
-   rxw    compiled-text -> Regex::new ok?  (regex crate's part)
-   rxr    pattern -> is it a regular expression on its own?
+   rxr    pattern -> Regex::new(pattern) ok?        (regex crate's part; both tables are Regex::new
+   rxw    ^(?:pattern)$ -> Regex::new ok?             on the key, so they agree where keys coincide)
    tree   the tree of the definition that was given (None: the text is not JSON at all)
    clean  the definition uses objects with exactly the struct's fields, in the struct's order *)
 Definition c18_case (s : list N) (jp : list (list N * jv)) (rxw rxr : list (list N * bool))
                     (tree : option jv) (clean : bool) (impl : option impl_ok) : N :=
-  let rx_ok := fun t => match assoc_str t rxw with Some b => b | None => false end in
+  let rx_ok := fun t => match assoc_str t (rxr ++ rxw) with Some b => b | None => false end in
   let raw_ok := fun t => match assoc_str t rxr with Some b => b | None => false end in
   let json_parse := fun t => assoc_str t jp in
   let model := from_any rx_ok json_parse s in
